@@ -265,7 +265,10 @@ class DataPacketReceiver(Elaboratable):
                         previous_valid  .eq(source.valid)
                     ]
 
-                    with m.If((sink.ctrl & source.valid) != 0):
+                    # Every word we take in this state -- payload bytes, possibly followed by the first
+                    # CRC bytes; or the whole CRC of a zero-length payload -- consists of data symbols only.
+                    # A control symbol anywhere in it (e.g. the EDB framing of an aborted payload) ends the packet.
+                    with m.If(sink.ctrl != 0):
                         m.d.comb += self.packet_bad.eq(1)
                         m.next = "WAIT_FOR_HPSTART"
 
